@@ -619,6 +619,16 @@ def plan(tier, seed):
         for k, v in st.dim_hist.items():
             kk = re.sub(r"\d+", "#", k)
             dims[f"{name}:{kk}"] = max(dims.get(f"{name}:{kk}", 0), len(v))
+    # cross-opset histories (vf/props/c18_xopset.py): one item per operator with >= 2 schema versions
+    from . import c18_xopset
+    xi = c18_xopset.plan_items()
+    items.extend(xi)
+    nh = sum(len(it["pairs"]) * 2 + sum(2 for p in it["pairs"] if p[2]) for it in xi)
+    per["xopset"] = {"leaves": nh, "pruned": 0, "states": nh + len(xi), "bound": 0, "items": len(xi)}
+    total["states"] += nh + len(xi)
+    total["transitions"] += nh
+    total["leaves"] += nh
+    total["bound"]["xopset"] = 0
     total["bound"] = max(total["bound"].values())
     total["exhaustive"] = not total["capped"]
     total["dimensions"] = dims
@@ -636,7 +646,25 @@ def worker_init(arg):
     warnings.filterwarnings("ignore")
 
 
+def _exec_xopset(item):
+    from . import c18_xopset
+    recs = c18_xopset.execute(item)
+    viols = []
+    for r in recs:
+        if r["status"] == "viol":
+            cls = "moved-name" if r.get("moved") else "same-split"
+            viols.append({"key": f"C18|xopset|{r['why']}|{cls}", "detail": {"show": r["show"]}})
+    n_ok = sum(1 for r in recs if r["status"] == "ok")
+    return {"status": "viol" if viols else ("ok" if n_ok else "skip"), "skip": "no-call-form", "viols": viols,
+            "outcome": "xopset:" + ("differs" if viols else ("same-as-fresh" if n_ok else "no-call-form")),
+            "nontrivial": n_ok > 0, "nkey": [f"xopset|{item['op']}|{r['hist']}" for r in recs if r["status"] != "skip"],
+            "show": "; ".join(r["show"] for r in recs[:2]), "counts": {"xopset_histories": len(recs),
+                                                                     "extra_evaluations": max(len(recs) - 1, 0)}}
+
+
 def execute(item):
+    if item["fam"] == "xopset":
+        return _exec_xopset(item)
     if item["fam"] == "tree":
         return _exec_tree(item)
     return _exec_trace(item)
